@@ -602,8 +602,7 @@ func ruleMDMERGE(c *Ctx) []Obligation {
 			if !ok {
 				return true
 			}
-			xs := exprString(rs.X)
-			if strings.Contains(xs, "TopLevelEntities()") {
+			if rangesTopLevelEntities(p.TypesInfo, fd, rs) {
 				ast.Inspect(rs.Body, func(m ast.Node) bool {
 					as, ok := m.(*ast.AssignStmt)
 					if !ok || len(as.Lhs) != 1 || len(as.Rhs) != 1 {
